@@ -230,11 +230,13 @@ impl VRunner {
         self.b8.clear();
         self.b8.resize(al, 0xC9);
         self.b8.extend_from_slice(&c.src8);
-        self.b8.extend_from_slice(&[0xC9; 8]);
+        // sentinels after the slice are continuation bytes / a low surrogate: a read past the end
+        // would then complete a truncated sequence and change the answer
+        self.b8.extend_from_slice(&[0xBF; 8]);
         self.b16.clear();
-        self.b16.resize(al, 0xC9C9);
+        self.b16.resize(al, 0xD800);
         self.b16.extend_from_slice(&c.src16);
-        self.b16.extend_from_slice(&[0xD800; 4]);
+        self.b16.extend_from_slice(&[0xDC00; 4]);
         let s8 = &self.b8[al..al + c.src8.len()];
         let s16 = &self.b16[al..al + c.src16.len()];
         let want = reference(c.f, &c.src8, &c.src16);
